@@ -19,6 +19,7 @@ func init() {
 			"R2 parameter agreement (siblings): every rsa.PSSOptions literal in production code is {PSSSaltLengthEqualsHash, SHA-256}; every digest handed to Signer.Sign / rsa.SignPSS / rsa.VerifyPSS comes from sha256.Sum256; certificate templates and the verifier use x509.SHA256WithRSAPSS; any extended key usage a template sets is acceptable to every x509 chain verification site of the repository (no KeyUsages = ServerAuth, Any matches all); KMS keys are created with RSA_SIGN_PSS_4096_SHA256; the documented openssl command (value of the constant format in OpensslVerifyShellCmd) names pss padding, salt length 32, sha256 digest and sha256 MGF1. " +
 			"R3 one key name: the key version handed to CA.Certificate, CA.CABundle and Signer.Sign in SignDoc is one value obtained from PrimarySigningKeyVersion. " +
 			"R4 raw output: InspectPayload / InspectSignature write the field bytes themselves (C19.R5). " +
+			"R5 (= C20.R1) the Cloud KMS signer returns a signature only behind the response-CRC, verified-digest/data and options guards, so the bytes signed are the digest SignDoc computed. " +
 			"Not covered: that verification succeeds (runtime cryptography), validity windows, rotation histories, storage-backed versus in-memory authorities.",
 		Assumptions: []string{"go/types, go/ssa", "crypto/rsa, crypto/x509 semantics"},
 		Run:         runC03,
@@ -26,6 +27,9 @@ func init() {
 }
 
 func runC03(c *Ctx) {
+	// R5 = C20.R1: a Cloud KMS signature is only handed to SignDoc after the service confirmed that it signed the
+	// digest that was sent (a digest damaged in transit yields a well-formed signature that does not verify).
+	c.borrow("R5/C20.", runC20, func(rule, _ string) bool { return rule == "R1" })
 	epbPkg := repoPath("proto/endorsement")
 	stypPkg := repoPath("sign/types")
 	sd := c.fn("R1", "endorse", "SignDoc")
